@@ -68,6 +68,11 @@ TIE_SEARCH = {
     "vm_binary_op_type_error": ("TieVm", "vm_binary_op_impl(Subtract)"), "vm_logical_not_effect": ("TieVm", "vm_logical_not_impl"),
     "vm_negate_number": ("TieVm", "vm_negate_impl"), "vm_negate_type_error": ("TieVm", "vm_negate_impl"),
     "vm_bitwise_not_number": ("TieVm", "vm_bitwise_not_impl"), "jump_roundtrip": ("TieVm", "vm_jump_impl"), "loop_roundtrip": ("TieVm", "vm_loop_impl"),
+    "vm_unwind_contract": ("TieHandlers", "vm_unwind_stack"), "vm_unwind_uncaught": ("TieHandlers", "vm_unwind_stack"),
+    "vm_push_handler_effect": ("TieHandlers", "fiber_push_exc_handler"), "vm_pop_handler_effect": ("TieHandlers", "vm_pop_exc_handler_impl"),
+    "vm_jump_finally_effect": ("TieHandlers", "vm_jump_finally_impl"), "vm_end_finally_pending_return": ("TieHandlers", "vm_end_finally_impl"),
+    "vm_end_finally_nothing_pending": ("TieHandlers", "vm_end_finally_impl"), "vm_end_finally_rethrows_uncaught": ("TieHandlers", "vm_end_finally_impl"),
+    "vm_throw_effect": ("TieHandlers", "vm_unwind_stack"),
     "precedence_from_discr": ("TieCompiler", "Precedence::from"),
     "precedence_from_panics_iff": ("TieCompiler", "Precedence::from"),
     "precedence_names_are_the_table": ("TieCompiler", "Precedence-enum"),
